@@ -10,7 +10,7 @@
    not proved (see design/C19.md). *)
 From Coq Require Import List NArith Bool.
 From GQ Require Import Model.C19 Proofs.C19_Lists Proofs.C19_Struct Proofs.C19_Ops Proofs.C19_Heap
-  Proofs.C19_State Proofs.C19_Contig Proofs.C19_Limits Proofs.C19.
+  Proofs.C19_State Proofs.C19_Contig Proofs.C19_Limits Proofs.C19_QLimit Proofs.C19.
 Import ListNotations.
 Local Open Scope N_scope.
 
@@ -114,7 +114,7 @@ Print Assumptions underpriced_replacement_rejected.
 
 (* Size limits inside the modelled domain: the hash index never exceeds
    GlobalSlots+GlobalQueue; promoteExecutables caps the queue of the processed account.
-   (GlobalQueue / GlobalSlots after truncation: monitors only, see design/C19.md.) *)
+   (GlobalSlots after truncatePending: monitors only, see design/C19.md.) *)
 Theorem index_size_limit : forall c price_limit st h,
   len (map fst (p_all (run_hist c (init price_limit st) h))) <= c_gslots c + c_gqueue c.
 Proof. exact index_limit_lemma. Qed.
@@ -124,6 +124,16 @@ Theorem account_queue_capped_by_promotion : forall c a p,
   len (aget a (p_queue (promote_one c a p))) <= N.max (c_aqueue c) 0 \/ aget a (p_queue p) = [].
 Proof. exact promote_one_queue_cap. Qed.
 Print Assumptions account_queue_capped_by_promotion.
+
+(* truncateQueue re-establishes GlobalQueue on any reachable state, for EVERY eviction order
+   that lists the accounts having queued transactions (the Go code builds the order from
+   pool.queue itself and sorts it by heartbeat: the wall clock cannot break the bound). *)
+Theorem queue_limit_after_truncation : forall c price_limit st h order,
+  let p := run_hist c (init price_limit st) h in
+  (forall b, aget b (p_queue p) <> [] -> In b order) ->
+  atotal (p_queue (truncate_queue c order p)) <= c_gqueue c.
+Proof. exact queue_limit_lemma. Qed.
+Print Assumptions queue_limit_after_truncation.
 
 (* The pool's chain state is the state of the last head event. *)
 Theorem chain_state_follows_head : forall c p o qo,
@@ -144,6 +154,12 @@ Proof. exact nv_replacement. Qed.
 Example monotone_history_nonvacuous :
   monotone nv_st [(OAdd false [w_A], []); (OHead (Reset w_st2 [] [w_A; w_B]), []); (OTick, [])].
 Proof. exact nv_monotone. Qed.
+Example queue_truncation_nonvacuous :
+  let c := Cfg 10 16 64 16 2 in
+  let p := fst (fst (add_txs c [T 0 1 5 21000 0; T 0 2 5 21000 0; T 1 3 5 21000 0; T 1 4 5 21000 0; T 2 9 5 21000 0] false
+                     (init 1 (St [] [(0,1000000000);(1,1000000000);(2,1000000000)] 1 5000000)))) in
+  atotal (p_queue p) = 5 /\ atotal (p_queue (truncate_queue c [2;1;0] p)) = 2 /\ atotal (p_queue (truncate_queue c [0;1;2] p)) = 2.
+Proof. exact queue_limit_nonvacuous. Qed.
 Example gap_witness_nonvacuous :
   map t_nonce (aget 0 (p_pend (run_hist w_cfg (init 5 w_st0) w_gap_history))) = [0; 2].
 Proof. exact gap_witness. Qed.
